@@ -22,7 +22,69 @@ impl PureState {
                     Err(_) => "err".to_string(),
                 })
             }
-            _ => None,
+            _ => b62_step(t),
         }
+    }
+}
+
+fn res_hex(r: Result<Vec<u8>, crate::error::Error>) -> String {
+    match r {
+        Ok(v) => format!("ok:{}", hex(&v)),
+        Err(_) => "err".to_string(),
+    }
+}
+
+fn text_or_dash(s: &str) -> String {
+    if s.is_empty() { "-".to_string() } else { s.to_string() }
+}
+
+fn key_report(privk: &str, pubk: &str) -> String {
+    use crate::crypto::verif_hooks_common as hc;
+    let privparse = res_hex(hc::parse_private_key(privk));
+    let pubparse = res_hex(hc::parse_public_key(pubk).map(|k| k.to_vec()));
+    let pair = match hc::parse_keypair(privk, pubk) { Ok(_) => "ok", Err(_) => "err" };
+    // a node configured with the printed keys (cipher list "plain" avoids the speed measurement)
+    let cfg = crate::crypto::Config {
+        password: None,
+        private_key: Some(privk.to_string()),
+        public_key: Some(pubk.to_string()),
+        trusted_keys: vec![pubk.to_string()],
+        algorithms: vec!["plain".to_string()],
+    };
+    let crypto = match crate::crypto::Crypto::new([0; 16], &cfg) { Ok(_) => "ok", Err(_) => "err" };
+    format!("privparse={} pubparse={} pair={} crypto={}", privparse, pubparse, pair, crypto)
+}
+
+pub fn b62_step(t: &[&str]) -> Option<String> {
+    use crate::crypto::verif_hooks_common as hc;
+    match t[0] {
+        "b62enc" => Some(text_or_dash(&crate::util::to_base62(&unhex(t.get(1)?)?))),
+        "b62dec" => {
+            let text = String::from_utf8(unhex(t.get(1)?)?).ok()?;
+            Some(match crate::util::from_base62(&text) {
+                Ok(v) => format!("ok:{}", hex(&v)),
+                Err(_) => "err".to_string(),
+            })
+        }
+        "keypub" => {
+            let text = String::from_utf8(unhex(t.get(1)?)?).ok()?;
+            Some(res_hex(hc::parse_public_key(&text).map(|k| k.to_vec())))
+        }
+        "seedcheck" => {
+            let seed = unhex(t.get(1)?)?;
+            let seedpub = hc::pub_from_seed(&seed)?;
+            let privk = crate::util::to_base62(&seed);
+            let pubk = crate::util::to_base62(&seedpub);
+            Some(format!("priv={} pub={} keypub={} {}", text_or_dash(&privk), text_or_dash(&pubk), hex(&seedpub), key_report(&privk, &pubk)))
+        }
+        "pwcheck" => {
+            let pw = String::from_utf8(unhex(t.get(1)?)?).ok()?;
+            let (privk, pubk) = crate::crypto::Crypto::generate_keypair(Some(&pw));
+            let (privk2, pubk2) = crate::crypto::Crypto::generate_keypair(Some(&pw));
+            let nodepub = hc::keypair_from_password(&pw);
+            let again = if privk == privk2 && pubk == pubk2 { "same" } else { "diff" };
+            Some(format!("priv={} pub={} keypub={} {} again={}", text_or_dash(&privk), text_or_dash(&pubk), hex(&nodepub), key_report(&privk, &pubk), again))
+        }
+        _ => None,
     }
 }
